@@ -20,7 +20,7 @@ ASSUMPTIONS = [
     "documents that do not tokenize or crash a rule are skipped (C01/C07), counted",
     "API argument errors (empty string) are API contract, not in scope",
 ]
-LIMIT = {"Z1": 10194, "Z3": 12000, "Z4": 4000}
+LIMIT = {"Z1": 10194, "Z3": 10000, "Z4": 4000, "Z7": 10000}
 _LINE = re.compile(r"^(.*?):(\d+):(\d+): ([A-Z0-9]+): (.*)$")
 DIAG = [
     ["--log-level", "WARNING"], ["--log-level", "ERROR"], ["--stack-trace"], ["--stack-trace", "--log-level", "WARNING"],
@@ -31,11 +31,11 @@ DIAG_VERBOSE = [["--log-level", "DEBUG"], ["--log-level", "INFO"], ["--log-file"
 
 
 def universe_hash():
-    return U.content_hash()
+    return PL.hash_ab()
 
 
 def plan(tier, seed, complete=False):
-    items, zinfo = PL.plan_docs(tier, seed, complete, quick={"Z1": 700, "Z3": 500, "Z4": 200}, z1_all=False, limit=LIMIT, zones=("Z1", "Z3", "Z4"))
+    items, zinfo = PL.plan_docs(tier, seed, complete, quick={"Z1": 600, "Z3": 400, "Z4": 150, "Z7": 350}, z1_all=False, limit=LIMIT, zones=("Z1", "Z3", "Z4", "Z7"), force_b=True)
     return {
         "items": items, "zones": zinfo, "exhaustive": False,
         "rule": "documents of the frozen universes with an index-chosen line-ending variant (LF, CR-LF, no final newline, non-ASCII suffix) x entry points "
